@@ -521,6 +521,12 @@ theorem findNodeL_none (o : Opts) (st : Styles) (pre p : Path) :
       simp [renderList, findNodeL, findNode_none o st pre p s hs, findNodeL_none o st pre p r h]
 end
 
+/-! ### the store of per-model graphs -/
+
+theorem store_get_set (k k' : Nat) (s : Styles) (st : Store) :
+    (st.set k s).get k' = if k = k' then s else st.get k' := by
+  simp [Store.set, Store.get]
+
 /-! ### sessions: the view only depends on the latest options / description and the graph events -/
 
 def lastOpts (o : Opts) : List Event → Opts
